@@ -121,7 +121,8 @@ def extract(config, repo=None, cache=None, force=False, quiet=True, target_dir=N
     key = tree_key(repo)
     facts_root = os.path.join(cache, "facts")
     os.makedirs(facts_root, exist_ok=True)
-    out_dir = os.path.join(facts_root, "%s-%s" % (config, key))
+    scratch = os.path.realpath(repo) != os.path.realpath("/repo")
+    out_dir = os.path.join(facts_root, "%s%s-%s" % ("scratch-" if scratch else "", config, key))
     lock_path = os.path.join(cache, "lock-%s" % config)
     t0 = time.time()
     with open(lock_path, "w") as lk:
@@ -133,8 +134,9 @@ def extract(config, repo=None, cache=None, force=False, quiet=True, target_dir=N
             info["wall_s"] = round(time.time() - t0, 2)
             return out_dir, info
         # drop fact sets of other tree keys for this config (disk hygiene)
-        for d in glob.glob(os.path.join(facts_root, config + "-*")):
-            if d != out_dir and os.path.basename(d).rsplit("-", 1)[0] == config:
+        pref = ("scratch-" if scratch else "") + config
+        for d in glob.glob(os.path.join(facts_root, pref + "-*")):
+            if d != out_dir and os.path.basename(d).rsplit("-", 1)[0] == pref:
                 shutil.rmtree(d, ignore_errors=True)
         shutil.rmtree(out_dir, ignore_errors=True)
         tmp_out = out_dir + ".tmp"
